@@ -57,3 +57,15 @@ Example C18_nonvacuous :
   /\ gen_range 10 300 (SrcBytes [1; 2; 3]) = Ok (10 + 258 mod 290, SrcBytes [3])
   /\ fst (gen_bytes 5 (SrcWords (fun i => i + 1) 0)) = [1; 0; 0; 0; 2].
 Proof. vm_compute. repeat split. Qed.
+
+(* The f64 the seeded PRNG hands out (rand 0.9 `random::<f64>()` = (next_u64 >> 11) * 2^-53): the bit pattern
+   the model builds for it (Entropy.f64_of_dyadic53, compared bit for bit with the implementation by S2 / S3)
+   decodes in Flocq's IEEE-754 binary64 to a FINITE number whose value is exactly k * 2^-53, i.e. a number of
+   [0, 1).  (Depends on the standard library's axioms of the reals through Flocq; listed below.) *)
+From PF.proofs Require GateIEEE.
+From Flocq Require Import Core Binary Bits.
+Theorem C18_f64_ieee : forall k, (k < 2 ^ 53)%N ->
+  is_finite 53 1024 (b64_of_bits (Z.of_N (f64_of_dyadic53 k))) = true
+  /\ B2R 53 1024 (b64_of_bits (Z.of_N (f64_of_dyadic53 k))) = GateIEEE.draw_R k.
+Proof. exact GateIEEE.dyadic53_value. Qed.
+Print Assumptions C18_f64_ieee.
